@@ -490,7 +490,8 @@ def _relabel_mutations_node(
 
     insert_position = edges_left[insert_index]
     remove_position = edges_right[remove_index]
-    sequence_length = remove_position[-1]
+    # with no edges at all there is nothing to sweep: every mutation keeps its node
+    sequence_length = remove_position[-1] if num_edges > 0 else 0.0
 
     output = np.full(num_mutations, tskit.NULL, dtype=np.int32)
     # nodes that are not (yet) in any edge keep their original ID
